@@ -171,6 +171,30 @@ Qed.
 Lemma len_pmul_nil_r (p : list K) : length (pmul p (@nil K)) = length p.
 Proof. induction p as [|x l IH]; simpl; [reflexivity|]. rewrite IH. reflexivity. Qed.
 
+(** affine combinations with PUBLIC coefficients of consistent sharings are consistent sharings:
+    this is why every masked-opening protocol (sgn, trunc, lsb, _mod, to_bits, _convert, ...),
+    whose result is  c0 + sum_k c_k * sigma_k  with c0, c_k computed from opened values, again
+    yields a degree-t sharing of the corresponding combination of values *)
+Fixpoint sh_lincomb (c0 : K) (terms : list (K * list K)) : list K :=
+  match terms with
+  | [] => sh_const m c0
+  | (c, s) :: rest => sh_add (sh_scal c s) (sh_lincomb c0 rest)
+  end.
+Fixpoint val_lincomb (c0 : K) (terms : list (K * K)) : K :=
+  match terms with [] => c0 | (c, a) :: rest => c * a + val_lincomb c0 rest end.
+
+Theorem sharing_lincomb d (c0 : K) (terms : list (K * list K * K)) :
+  (forall c s a, In (c, s, a) terms -> Sharing d s a) ->
+  Sharing d (sh_lincomb c0 (map (fun x => (fst (fst x), snd (fst x))) terms))
+            (val_lincomb c0 (map (fun x => (fst (fst x), snd x)) terms)).
+Proof.
+  induction terms as [|[[c s] a] rest IH]; intros H; simpl.
+  - apply sharing_const.
+  - apply sharing_add.
+    + apply sharing_scal. apply (H c s a). left; reflexivity.
+    + apply IH. intros c' s' a' Hin. apply (H c' s' a'). right; exact Hin.
+Qed.
+
 (** local product: degree doubles *)
 Theorem sharing_mul_local d s1 s2 a b : Sharing d s1 a -> Sharing d s2 b ->
   Sharing (2 * d) (sh_mul_local s1 s2) (a * b).
